@@ -1,3 +1,5 @@
+import ast
+
 from outsourcer import Code
 
 from .base import Expression
@@ -11,9 +13,18 @@ class PythonExpression(Expression):
 
     def __init__(self, source_code):
         self.source_code = source_code
+        self.local_names = ()
 
     def __str__(self):
         return f'`{self.source_code}`'
+
+    def names(self):
+        # The identifiers that the Python expression mentions.
+        try:
+            tree = ast.parse(self.source_code.strip(), mode='eval')
+        except SyntaxError:
+            return set()
+        return {x.id for x in ast.walk(tree) if isinstance(x, ast.Name)}
 
     def always_succeeds(self):
         return True
